@@ -14,7 +14,40 @@ import tempfile
 from . import facts as F
 
 
-def run():
+FIELD_WITNESSES = {
+    # type -> (how application code gets hold of a value, a compiling use of it)
+    'autocomplete::Autocompletion': (
+        "let mut buf = [0u8; 8];\nlet mut a = embedded_cli::autocomplete::Autocompletion::new(&mut buf);",
+        "a.merge_autocompletion(\"x\");", "a"),
+    'writer::Writer': (
+        "fn f<W: embedded_io::Write<Error = E>, E: embedded_io::Error>(w: &mut embedded_cli::writer::Writer<'_, W, E>) {",
+        "let _ = w.write_str(\"x\");\n}", "w"),
+}
+
+
+def generated(lib):
+    """per-field privacy witnesses for the current field names of the types application code is handed"""
+    out = []
+    for adt, (intro, use, var) in sorted(FIELD_WITNESSES.items()):
+        a = lib.adts_n.get(adt)
+        if a is None:
+            raise F.ExtractError("witness: type %s not found" % adt)
+        short = adt.rsplit('::', 1)[-1]
+        for fd in a['variants'][0]['fields']:
+            nm = "WF_%s_%s" % (short, fd['name'])
+            closing = "\n}" if intro.rstrip().endswith('{') else ""
+            body_fail = "%s\nlet _ = &%s.%s;\n%s" % (intro, var, fd['name'], use)
+            body_twin = "%s\n%s" % (intro, use)
+            doc = ["/// field `%s` of `%s` is private to the crate" % (fd['name'], adt), "/// ```compile_fail,E0616"]
+            doc += ["/// " + l for l in body_fail.split("\n")]
+            doc += ["/// ```", "/// twin:", "/// ```no_run"]
+            doc += ["/// " + l for l in body_twin.split("\n")]
+            doc += ["/// ```", "pub struct %s;" % nm, ""]
+            out.append("\n".join(doc))
+    return "\n".join(out)
+
+
+def run(lib=None):
     src = os.path.join(F.VERIF, 'fixtures', 'witness')
     tmp = tempfile.mkdtemp(prefix='ecli-witness-')
     try:
@@ -25,6 +58,9 @@ def run():
             txt = f.read()
         with open(ct, 'w') as f:
             f.write(txt.replace('"/repo/embedded-cli"', '"%s/embedded-cli"' % F.REPO))
+        if lib is not None:
+            with open(os.path.join(dst, 'src', 'lib.rs'), 'a') as f:
+                f.write("\n" + generated(lib))
         lock = os.path.join(F.REPO, 'Cargo.lock')
         if os.path.exists(lock):
             shutil.copy(lock, os.path.join(dst, 'Cargo.lock'))
